@@ -27,7 +27,21 @@ def check(ctx):
     fn = ctx.fn(qn)
     ps = summarise(ctx, qn, policy=default_policy)
     seen = set()
+    from ..lib import slot_memos, uncopy
+    slots = slot_memos(ctx, fn, ps)
+    skip = []
+    for sm in slots:
+        what = '_normalise_weights hands out the remembered scaling (self.%s) only for the weights and leverage it was computed from' % sm['result']
+        if sm['verdict'][0] == 'sound':
+            ctx.holds('C11.S1', what + ' (the question is kept as the snapshot %s)' % fmt(sm['key'])[:60], fn.site())
+        elif sm['verdict'][0] == 'unsound':
+            ctx.violation('C11.S1', what, fn.site(), sm['verdict'][1], key='C11.S1|slot-memo|%s' % sm['result'])
+        else:
+            ctx.undecided('C11.S1', what, fn.site(), sm['verdict'][1])
+        skip.extend(sm['hits'])
     for p in ps:
+        if any(p is h_ for h_ in skip):
+            continue        # the remembered answer equals the computing path that stored it when the slot is sound (judged above)
         if p.outcome != 'return':
             ctx.violation('C11.S1', '_normalise_weights never refuses signed weights', fn.site(), cond_str(p)[:100], key='C11.S1|raise')
             continue
@@ -51,9 +65,9 @@ def check(ctx):
             continue
         seen.add(close)
         if close:
-            ctx.require(p.value == V('weights'), 'C11.S1', 'weights with ~0 gross exposure are returned unscaled', fn.site(), fmt(p.value)[:100], key='C11.S1|zero')
+            ctx.require(uncopy(p.value) == V('weights'), 'C11.S1', 'weights with ~0 gross exposure are returned unscaled', fn.site(), fmt(p.value)[:100], key='C11.S1|zero')
         else:
-            v = p.value
+            v = uncopy(p.value)
             ok = v[0] == 'comp' and v[1] == 'dict' and len(v[3]) == 1 and fmt(v[3][0][1]) == 'weights.items()' and not v[3][0][2] and v[2][1][0] == v[3][0][0][0]
             if ok:
                 wv = v[3][0][0][1]
@@ -160,7 +174,8 @@ def check(ctx):
             else:
                 ctx.require(nan is False, 'C11.S3', 'the division by the price happens only after the NaN check passed', lp.site, cond_str(bp)[:120], key='C11.S3|nan-dominates')
         ctx.require(seen_raise, 'C11.S3', 'an unavailable (NaN) price is rejected with ValueError', lp.site, key='C11.S3|nan-raise')
-        ok = wsrc == V('weights') or (wsrc[0] == 'comp' and wsrc[1] == 'dict')
+        wsrc = uncopy(wsrc)
+        ok = wsrc == V('weights') or (wsrc[0] == 'comp' and wsrc[1] == 'dict') or any(wsrc in sm.get('result_locs', ()) for sm in slots)
         ctx.require(ok, 'C11.S1', 'the sizing loop runs over the scaled weights', lp.site, fmt(wsrc)[:100], key='C11.S1|loop-source')
     for p in ps:
         if p.outcome == 'return' and p.value == ('dict', ()) and not any(e.kind == 'loop' for e in p.events):
